@@ -1,5 +1,6 @@
 /- htpdrv: one operation per input line, one canonical result line per operation. -/
 import Driver.Prim
+import Driver.Fn
 
 namespace Driver
 
@@ -12,6 +13,7 @@ def step (s : St) (line : String) : St × String :=
   | "table" :: rest => let (p, o) := tableOp s.prim rest; ({ s with prim := p }, o)
   | "bstr" :: rest => (s, bstrOp rest)
   | "num" :: rest => (s, numOp rest)
+  | "fn" :: rest => (s, fnOp rest)
   | _ => (s, "bad-op")
 
 partial def loop (h : IO.FS.Stream) (out : IO.FS.Stream) (s : St) : IO Unit := do
